@@ -984,6 +984,37 @@ def single_env(fn: ast.AST) -> Dict[str, ast.AST]:
     return {k: v for k, v in val.items() if count.get(k) == 1}
 
 
+def expanded_keywords(f: Func, call: ast.Call) -> Dict[str, ast.AST]:
+    """Keyword arguments of a call with `**local` spreads written out, where the local is bound once to `dict(k=v, ...)`
+    or `{"k": v, ...}` (keys a later `local[k] = v` / `local.update(k=v)` adds are included)."""
+    out: Dict[str, ast.AST] = {}
+    for k in call.keywords:
+        if k.arg:
+            out[k.arg] = k.value
+        elif isinstance(k.value, ast.Name):
+            nm = k.value.id
+            binds = [x for x in own_nodes(f.node) if isinstance(x, (ast.Assign, ast.AnnAssign)) and x.value is not None and any(isinstance(t, ast.Name) and t.id == nm for t in (x.targets if isinstance(x, ast.Assign) else [x.target]))]
+            if len(binds) != 1:
+                continue
+            v = binds[0].value
+            if isinstance(v, ast.Call) and src(v.func) == "dict" and not v.args:
+                for kk in v.keywords:
+                    if kk.arg:
+                        out.setdefault(kk.arg, kk.value)
+            elif isinstance(v, ast.Dict):
+                for kk, vv in zip(v.keys, v.values):
+                    if isinstance(kk, ast.Constant) and isinstance(kk.value, str):
+                        out.setdefault(kk.value, vv)
+            for x in own_nodes(f.node):
+                if isinstance(x, ast.Assign) and isinstance(x.targets[0], ast.Subscript) and src(x.targets[0].value) == nm and isinstance(x.targets[0].slice, ast.Constant) and isinstance(x.targets[0].slice.value, str):
+                    out.setdefault(x.targets[0].slice.value, x.value)
+                if isinstance(x, ast.Call) and isinstance(x.func, ast.Attribute) and x.func.attr == "update" and src(x.func.value) == nm:
+                    for kk in x.keywords:
+                        if kk.arg:
+                            out.setdefault(kk.arg, kk.value)
+    return out
+
+
 def per_item_unit(ctx: Ctx, f: Func):
     """How a container setter converts one supplied item: (function, item variable, paths, anchor node, is_helper).
 
